@@ -42,6 +42,8 @@ func main() {
 		genFor(*prop, *tier, *seed, *arg)
 	case "osproc":
 		runOSProc(*nArg, *langArg, *seed)
+	case "overlap":
+		runOverlap(*tier, *seed)
 	case "conc":
 		runConcFile(*arg, *seed)
 	case "prog":
